@@ -59,6 +59,10 @@ def st_class_case(draw, deco_kw, hier_kw):
     ids = G.Ids()
     prog, kind, mname = draw(G.st_hierarchy(ids, deco_kw=deco_kw, **hier_kw))
     ops = []
+    try:
+        model = REF.Model(prog)
+    except REF.RefInconsistency:
+        model = None
     for ci, c in enumerate(prog["classes"]):
         anc = set()
         stack = [ci]
@@ -75,6 +79,10 @@ def st_class_case(draw, deco_kw, hier_kw):
             for m in prog["classes"][cj]["members"]:
                 if m["name"] == mname and m["kind"] == kind and f is None:
                     f = m
+        if f is not None and kind in ("getter", "setter", "deleter") and model is not None:
+            # the property object this class sees may lack the accessor (an MRO neighbour's property is another object)
+            e = model.eff(ci, REF.member_key(f)) if model.def_error.get(ci) is None else None
+            f = None if e is None else e["func"]
         if f is not None:
             ops.append(G.op_for_member(kind, ci, mname, draw(G.st_call_args(f))))
     return {"program": prog, "ops": ops, "codes": draw(G.st_codes(all_cids(prog))), "target_kind": kind,
